@@ -33,13 +33,22 @@ def val_sx(v):
         return ["s"] + [ord(c) for c in v]
     if isinstance(v, tuple) and v and v[0] == NC:
         return ["s", 0, v[1]]
+    if isinstance(v, (set, frozenset)):
+        return ["ps", sum(1 << int(e) for e in v)]         # a set of small naturals, ordered by inclusion (partial order)
     raise ValueError(v)
+
+
+def set_src(v, order=None):
+    es = sorted(v) if order is None else order
+    return "{" + ", ".join(map(str, es)) + "}" if es else "set()"
 
 
 def val_src(v):
     """python source that builds the compared value in the test body"""
     if isinstance(v, tuple) and v and v[0] == NC:
         return f"NCS[{v[1]}]"
+    if isinstance(v, frozenset):
+        return set_src(v)
     return repr(v)
 
 
@@ -57,10 +66,18 @@ def spellings(rng, v):
         return rng.choice(opts)
     if v is None:
         return ("None", True)
+    if isinstance(v, frozenset):
+        opts = [(set_src(v), True)] * 2
+        if len(v) >= 2:
+            opts.append((set_src(v, sorted(v, reverse=True)), False))
+        opts.append(("set(%r)" % sorted(v), False))
+        return rng.choice(opts)
     raise ValueError(v)
 
 
 def rand_val(rng, family):
+    if family == "set":
+        return frozenset(e for e in range(3) if rng.random() < 0.45)
     if family == "int":
         r = rng.random()
         if r < 0.08:
@@ -86,7 +103,7 @@ def gen(rng, tier, shape=None):
     i = 0
     while i < nsites:
         role = (shape or {}).get("role") or rng.choice(["eq", "eq", "ge", "le", "in", "in", "dict", "mixed"])
-        family = "any" if role in ("eq", "in", "dict") else rng.choice(["int", "int", "str"])
+        family = "any" if role in ("eq", "in", "dict") else rng.choice(["int", "int", "str", "set"] if role in ("ge", "le") else ["int", "int", "str"])
         style = rng.choice(["fn", "fn", "mod", "lambda", "pair"])
         if style == "pair" and i + 1 >= nsites:
             style = "fn"
@@ -152,6 +169,13 @@ def gen(rng, tier, shape=None):
                 op = role
                 if rng.random() < 0.05:
                     op = rng.choice(["eq", "ge", "le", "in"])
+            if s["family"] == "set":
+                # bounds over a partial order (set inclusion): every value of this site is a set
+                x = rand_val(rng, "set")
+                if s.get("old") and s["old"][0] == "leaf" and rng.random() < 0.25:
+                    x = s["old"][1][0]
+                evs.append(["op", k, key, op, x])
+                continue
             fam = "int" if role == "dict" else s["family"]
             x = rand_val(rng, fam if op in ("ge", "le") else s["family"] if role != "dict" else "int")
             if op in ("ge", "le") and not isinstance(x, (int, str)):
@@ -353,6 +377,8 @@ def py_final(node_src):
 
 
 def final_sx(v):
+    if isinstance(v, (set, frozenset)):
+        return val_sx(frozenset(v))
     if isinstance(v, tuple) and not (v and v[0] == NC):
         v = list(v)
     if isinstance(v, list):
@@ -712,6 +738,9 @@ def oracle(case, obs):
             continue
         if any(isinstance(x, tuple) for (_k, _o, x) in seen):
             continue
+        if any(isinstance(x, frozenset) for (_k, _o, x) in seen) and (len(seen) != 1 or role_kind not in ("ge", "le")):
+            continue        # set inclusion is a partial order: the aggregation clauses assume a total one (scope of C05/C06);
+                            # a single observation against the stored bound is judged like any other
         fin = obs["finals"].get(k)
         cats = set(obs["sites"].get(k, {}).get("cats", []))
         xs = [x for (_k, _o, x) in seen]
@@ -799,6 +828,8 @@ def _unsx(f):
             return int(f[1])
         if f[0] == "s":
             return "".join(chr(int(c)) for c in f[1:])
+        if f[0] == "ps":
+            return frozenset(i for i in range(16) if int(f[1]) >> i & 1)
         if f[0] == "l":
             return [_unsx(e) for e in f[1:]]
         if f[0] == "d":
